@@ -61,7 +61,7 @@ def gen_program(rng, length, mix):
             prog.append(["newtab_dict", [[rng.choice(["a", "b", "c", "x"]), rand_vals(rng, n)] for _ in range(w_)]])
         elif o == "newtab_vecs":
             prog.append(["newtab_vecs", [rng.randint(0, 50) for _ in range(rng.randint(1, 3))]])
-        elif o in ("copy", "fp", "read", "drop", "cycle_drop", "transpose", "sort", "math", "fillna", "dropna"):
+        elif o in ("copy", "fp", "read", "drop", "cycle_drop", "transpose", "sort", "math", "fillna", "dropna", "fillna_w"):
             prog.append([o, s])
         elif o == "gc":
             prog.append(["gc"])
@@ -126,6 +126,7 @@ class World:
         self.unsupported = None
         self.cur_sids = set()
         self.retired = set()
+        self.held_rows = []     # (row object, the cells it showed when the program obtained it)
 
     # -- identities
     def sid(self, tup):
@@ -401,6 +402,18 @@ def _exec(w, pop, changed_ok):
             if not isinstance(r, Vector) or isinstance(r, Table) or r._name != o._name:
                 raise Skip()
             op_term = _vec_result(w, r, f"(CFrom {cnat(w.handle_of(o))} None)")
+        elif kind == "fillna_w":
+            # fillna with a value of a WIDER kind (a float into an int vector): a new, promoted vector - the
+            # operand keeps its contents and its dtype
+            o = w.slot(pop[1], "v")
+            d = o.__dict__
+            if isinstance(o, Table) or d.get("_dtype") is None or d["_dtype"].kind is not int or not d["_underlying"]:
+                raise Skip()
+            r = o.fillna(4.0)
+            if not isinstance(r, Vector) or isinstance(r, Table):
+                raise Skip()
+            nt = w.name_tok(r._name)
+            op_term = _vec_result(w, r, f"(CRes {_vals(w, r._underlying)} {copt(None if nt is None else cnat(nt))})")
         elif kind == "vcat":
             o = w.slot(pop[1], "v")
             if o._dtype is None and not pop[2]:
@@ -601,7 +614,12 @@ def _exec(w, pop, changed_ok):
             repr(o)
             list(o)
             if len(o):
-                o[0]
+                r0 = o[0]
+                if isinstance(o, Table) and o.__dict__["_underlying"] and len(w.held_rows) < 4:
+                    # the program keeps this row: whatever is written later - through the table, through a column
+                    # view - a row the program already holds still shows what it showed
+                    w.held_rows.append((r0, [(type(x).__name__, x) for x in r0]))
+                del r0
                 if not isinstance(o, Table):
                     (o == o).any()
                     o.sum()
@@ -664,6 +682,13 @@ def run_program(prog, delay_gc=True):
         oracle_tables(w, live1)
         # ---- C15 oracle: whatever the library builds itself (copies, slices, masks, results, table columns) shares
         # storage with no other live vector - only Vector(T) over a caller-supplied tuple may share
+        for r0, cells in w.held_rows:
+            now = [(type(x).__name__, x) for x in r0]
+            if now != cells:
+                w.findings.append(f"C01-held-row: a row the program obtained earlier showed {cells}; after {kind} it shows "
+                                  f"{now} (a row is a vector the program holds: later writes must not reach it)")
+                w.held_rows = []
+                break
         o1 = None
         if not (kind == "newvec" and pop[3] is not None):
             for h, o1 in live1.items():
@@ -686,6 +711,7 @@ def run_program(prog, delay_gc=True):
            "nsteps": len(w.steps)}
     # teardown so the next trace starts from an empty world
     w.held.clear()
+    w.held_rows.clear()
     w.refs.clear()
     del w
     gc.enable()
